@@ -94,7 +94,7 @@ def finish(res: Result) -> int:
         "discharged": discharged,
         "undecided": len(undecided),
         "violated": len(violated),
-        "undecided_reasons": sorted({f"{o.name}: {o.detail}"[:300] for o in undecided})[:60],
+        "undecided_reasons": sorted({f"{o.name}: {o.detail}"[:300] for o in undecided})[:80],
         "evaluations": max(n, 1),
         "distinct_nontrivial": max(len({o.name for o in obs if o.queries > 0 or o.status != 'undecided'}), 0),
         "rule": "one evaluation = one solver-decided obligation (an SMT query family over all values of the symbolic inputs "
@@ -125,7 +125,7 @@ def finish(res: Result) -> int:
     }
     with open(os.path.join(EVID, f"{res.prop}.json"), "w") as f:
         json.dump(ev, f, indent=1, default=str)
-    for k in res.known:
+    for k in sorted(set(res.known)):
         print(f"KNOWN-FINDING: property={res.prop} {k}")
     for m in res.mismatches:
         print(f"ENCODER-MISMATCH property={res.prop} {m}")
